@@ -331,6 +331,12 @@ def _run_net(ctx: Ctx):
                 toks = a.split()[1:]
                 hops = [j for j, t in enumerate(toks) if t.startswith("hop:")]
                 fate = "no-hop" if not hops else ("sent" if any(t.startswith("rx:") for t in toks[hops[0] + 1:]) else "hop-then-nothing")
+                if case["nodes"][op["node"]]["kind"] == "host":
+                    own = [case["nodes"][op["node"]]["ip"]] + [x["ip"] for x in case["nodes"][op["node"]].get("extra", [])]
+                    cls = "arrival-nic" if op["dst"] == own[op["ifc"]] else ("other-nic" if op["dst"] in own else "foreign")
+                    fate = "software" if any(t.startswith("sw:") for t in toks) else "not-handed-up"
+                    ctx.count(f"net-inject-host:{cls}:ttl{op['ttl']}:{fate}:answered={int(len([t for t in toks if t.startswith('rx:')]) > 1)}")
+                    continue
                 ctx.count(f"net-inject:ttl{op['ttl']}:{fate}")
                 nontrivial = nontrivial or bool(hops)
             if "OOF" in a.split():
